@@ -105,14 +105,20 @@ func linScenario(prelude []string, threads [][]string, after []string) *engine.S
 			}
 			finish := func(rw *regWorld, mark world.Mark) string {
 				during := outsSig(rw.w.Since(mark))
+				d, _ := rw.dump()
+				if len(after) == 0 {
+					return "written={" + during + "} state={" + stripTimers(d) + "} probes={}"
+				}
+				// the state the concurrent phase left behind counts as well as the state after the probes
+				// (a probe may overwrite what a lost update would have left)
 				m2 := rw.w.Mark()
 				for _, op := range after {
 					rw.prepare(op)()
 					rt.WaitIdle()
 				}
 				probes := outsStr(rw.w.Since(m2))
-				d, _ := rw.dump()
-				return "written={" + during + "} state={" + stripTimers(d) + "} probes={" + probes + "}"
+				d2, _ := rw.dump()
+				return "written={" + during + "} state={" + stripTimers(d) + " ;; after the probes: " + stripTimers(d2) + "} probes={" + probes + "}"
 			}
 			var refs []string
 			for _, il := range ils {
